@@ -50,6 +50,18 @@ func c04Guards(native bool) []*actlang.Prog {
 	}
 }
 
+// guards that look at the candidate they are offered (only combined with patterns that can give several)
+func c04CandidateGuards(native bool, v string) []*actlang.Prog {
+	return []*actlang.Prog{
+		prog(native, Op{K: actlang.RejectUnless, A: v, V: "b"}),
+		prog(native, Op{K: actlang.ThrowIf, A: v, V: "b"}),
+		prog(native, Op{K: actlang.ThrowIf, A: v, V: "b"}, Op{K: actlang.RejectUnless, A: v, V: "a"}),
+		prog(native, Op{K: actlang.ThrowIf, A: v, V: "a"}, Op{K: actlang.Set, A: "t", V: "n2"}),
+	}
+}
+
+var c04MultiPattern = M{"l": []interface{}{"?x"}}
+
 var c04Patterns = []interface{}{
 	nil,
 	M{"a": "?x"},
@@ -71,6 +83,17 @@ func c04Branches(native bool, thorough bool) [][]rstep.ABranch {
 			for _, t := range c04Targets {
 				first = append(first, rstep.ABranch{Pattern: p, Guard: g, Target: t})
 			}
+		}
+	}
+	for _, t := range c04Targets {
+		for _, g := range c04Guards(native) {
+			first = append(first, rstep.ABranch{Pattern: c04MultiPattern, Guard: g, Target: t})
+		}
+		for _, g := range c04CandidateGuards(native, "?x") {
+			first = append(first, rstep.ABranch{Pattern: c04MultiPattern, Guard: g, Target: t})
+		}
+		for _, g := range c04CandidateGuards(native, "?k") {
+			first = append(first, rstep.ABranch{Pattern: M{"?k": 1.0}, Guard: g, Target: t})
 		}
 	}
 	var second []rstep.ABranch
@@ -103,6 +126,7 @@ var c04States = []M{
 	{"k!": 1.0, "a": 1.0, "b": 1.0},
 	{"?t": "n2", "t": "n1"},
 	{"?<n": 5.0, "a": 1.0},
+	{"l": []interface{}{"a", "b", "c"}, "t": "n1"},
 }
 
 var c04Pendings = []interface{}{
@@ -111,15 +135,24 @@ var c04Pendings = []interface{}{
 	M{"a": 2.0, "b": 2.0},
 	M{"b": 1.0},
 	M{"t": "n1", "a": 1.0},
+	M{"l": []interface{}{"b", "a"}, "a": 1.0},
 }
 
 func stepOnce(spec *core.Spec, cs stepCase) (obs rstep.Outcome, panicked bool, pmsg, where string) {
+	obs, _, panicked, pmsg, where = stepOnceLogged(spec, cs)
+	return
+}
+
+// stepOnceLogged also returns the bindings the native action and guards were called with, in call order.
+func stepOnceLogged(spec *core.Spec, cs stepCase) (obs rstep.Outcome, log []string, panicked bool, pmsg, where string) {
 	st := &core.State{NodeName: cs.Node, Bs: match.Bindings(cloneM(cs.Bs))}
 	var stride *core.Stride
 	var err error
+	actlang.Trace = &log
 	panicked, pmsg, where = vh.Trap(func() {
 		stride, err = spec.Step(context.Background(), st, clone(cs.Pending), nil, nil)
 	})
+	actlang.Trace = nil
 	if panicked {
 		return
 	}
@@ -130,7 +163,7 @@ func stepOnce(spec *core.Spec, cs stepCase) (obs rstep.Outcome, panicked bool, p
 func checkStep(c *vh.Ctx, spec *core.Spec, cs stepCase) {
 	c.Eval()
 	refs := cs.Spec.Step(cs.Node, cs.Bs, cs.Pending)
-	obs, panicked, pmsg, where := stepOnce(spec, cs)
+	obs, log, panicked, pmsg, where := stepOnceLogged(spec, cs)
 	if panicked {
 		c.Violation("C04/panic/"+where, fmt.Sprintf("Step panicked: %s (at %s); reference allows %v", pmsg, where, keys(refs)), cs)
 		return
@@ -139,6 +172,14 @@ func checkStep(c *vh.Ctx, spec *core.Spec, cs stepCase) {
 		c.Nontrivial()
 	}
 	c.Outcome("step", obs.Key())
+	if len(refs) > 1 {
+		// several candidates for a guard: the one the guard decided on FIRST, in the order the engine
+		// actually offered them, is the one that counts
+		if want, ok := cs.Spec.StepLogged(cs.Node, cs.Bs, cs.Pending, log); ok {
+			c.Count("guard_order_checked", 1)
+			refs = []rstep.Outcome{want}
+		}
+	}
 	if !allowed(obs, refs) {
 		// re-execute: the machinery is deterministic
 		o2, p2, _, _ := stepOnce(spec, cs)
